@@ -12,7 +12,12 @@ PROP = {'streams': [('c09', 2000, 200000)],
          'on printed / generated / single-token-mutated type expressions, name resolution probed end-to-end through a synthetic schema with the same '
          'declared names; `sty parse-entity` lines: the real schema parser on one standard entity declaration (22 probes + 400 generated texts per '
          'run: 1-3 names incl. keywords and reserved words, `in` as bare path / [] / list, shape with and without `=`, malformed shapes, tags, '
-         'single-token mutations) against the declaration-level parser of the model (names, memberOf, shape, tags or (err)); non-trivial = every '
+         'single-token mutations) against the declaration-level parser of the model (names, memberOf, shape, tags or (err)); `sty print-frag` '
+         "lines: the real to_cedarschema on every translatable generated / probe fragment, tokenised, against the model's whole-fragment printer "
+         '(namespaces, common types, standard and enum entities, actions with parents / appliesTo / context); `sty parse-frag` lines: the real '
+         'from_cedarschema_str + to_json_schema.rs on the printed text, on the generated Cedar text (bare and multiple names, unqualified '
+         "parents, any appliesTo order) and on single-token declaration-level mutations of both, against the model's fragment parser (entries "
+         'and namespaces sorted on both sides; texts refused as duplicates or refused while annotated are skipped and counted); non-trivial = every '
          'model line, policy and datum, distinct by text',
  'theorems': ['type_roundtrip',
               'type_roundtrip_json',
@@ -24,10 +29,22 @@ PROP = {'streams': [('c09', 2000, 200000)],
               'decl_roundtrip',
               'decl_roundtrip_prefix',
               'decl_roundtrip_json',
-              'decl_parser_accepts_more'],
- 'assumptions': ['theorems cover type expressions, name resolution and the syntax of STANDARD ENTITY declarations (names, memberOf, shape with '
-                 'optional fields, tags: decl_roundtrip); enum entities, action / common-type / namespace declarations, annotations, lexing/escapes, '
-                 'fmt.rs collision checks and ValidatorSchema construction are covered by the four-way differential run only',
+              'decl_parser_accepts_more',
+              'enum_decl_roundtrip',
+              'enum_nonempty_needed',
+              'common_decl_roundtrip',
+              'common_reserved_needed',
+              'action_decl_roundtrip',
+              'appliesTo_half_empty_lost',
+              'ctxOK_needed',
+              'action_parser_accepts_more',
+              'fragment_roundtrip',
+              'namespace_reserved_needed'],
+ 'assumptions': ['theorems cover type expressions, name resolution and the syntax of ALL declaration kinds and whole fragments (standard and enum '
+                 'entities, actions with parents / appliesTo / context, common types, namespace blocks: fragment_roundtrip, up to the spelled-out '
+                 'normal form normFragment); annotations, lexing/escapes, the BTreeMap collection of parsed declarations (order, duplicate '
+                 'detection), action attributes, fmt.rs collision checks and ValidatorSchema construction are covered by the four-way differential '
+                 'run only',
                  "the model's tokens are produced from Rust's printed text by the harness's lexer (string literals unescaped by the real "
                  'to_unescaped_string)',
                  'resolution is observed end to end: the reply is read off the resolved type of a probe attribute in a synthetic schema']}
@@ -38,7 +55,13 @@ TEXT = ('Lean theorems over a thin model of schema TYPE EXPRESSIONS and NAME RES
  'form resolves every reference to the same declaration (resolve_stable; both hypotheses shown necessary). Declaration level, standard entity '
  'declarations only (Cedar/SchemaDecl.lean): the parser of the grammar\'s Entity production inverts the fmt.rs printer for any names / memberOf '
  'list / shape with optional fields / tags (decl_roundtrip), and a JSON entityTypes entry comes back as itself with entity-or-common leaves '
- '(decl_roundtrip_json). Enum entities, actions (appliesTo, parents), common-type and namespace declarations, annotations and everything else are NOT modelled: they are covered by the four-way differential run '
+ '(decl_roundtrip_json). The other declarations and whole fragments (Cedar/SchemaDecl2.lean): enum entities, common types and actions read '
+ 'back (enum_decl_roundtrip, common_decl_roundtrip, action_decl_roundtrip), and a whole JSON fragment (namespaces with common types, entity '
+ 'types of both kinds, actions with parents / appliesTo / context) printed by fmt.rs and parsed by the grammar + to_json_schema.rs is its '
+ 'spelled-out normal form normFragment (fragment_roundtrip): type leaves entity-or-common, parents with explicit Action type, an absent or '
+ 'HALF-EMPTY appliesTo the empty ApplySpec (the recorded defect, appliesTo_half_empty_lost), a context name a must-be-common reference; the '
+ 'hypotheses (identifier names, contexts that are records or names, non-reserved common-type and namespace names) are shown necessary. '
+ 'Annotations, the BTreeMap collection of parsed declarations (duplicates), lexing and everything else are NOT modelled: they are covered by the four-way differential run '
  'on the implementation (JSON -> schema vs JSON -> to_cedarschema -> schema, Cedar -> schema vs Cedar -> to_json_value -> schema, one further hop '
  'each, equality of ValidatorSchema plus identical policy/request/entity validation verdicts).',
  'proof over a hand-written model of type expressions and name resolution; the full statement (FullStatement) is not proved and is in fact violated '
